@@ -145,7 +145,7 @@ def cases(rng, tier):
         times = None
         if not dy:
             times = sorted(float(x) for x in np.cumsum(rng.uniform(0.1, 3.0, size=nf)))
-        specs, times, truth = gen.series(rng, base, nf, field=["random", "affine", "flow"][k % 3], amp_frac=0.5, times=times)
+        specs, times, truth = gen.series(rng, base, nf, field=["random", "affine", "flow"][k % 3], amp_frac=0.5, times=times, zero_junction=True)
         jump = None
         if k % 2 == 1 or tier == "quick":
             # one junction with >= 3 cells jumps out of the tracking radius between frames tj and tj+1
